@@ -137,6 +137,12 @@ def collect(t, rnd):
                 obs.append({"k": "level", "pt": [n, d, off], "large": large, "lvl": str(f_level(x, large))})
     # ---- pair-level API on threshold-bracketing and random pairs
     pl = nt[: (600 if t == "quick" else 6000)] + list(zip(rp[0:400:2], rp[1:400:2])) + coll[: (200 if t == "quick" else 2000)]
+    # pairs within 3e-7 of a threshold, both sides (catalogue found offline; which side is decided by TLC with the fine tables)
+    import pairs as _pairs0
+    rz = [tuple(map(tuple, pr)) for k_ in sorted(_pairs0.razor_all()) for pr in _pairs0.razor_all()[k_]]
+    rnd.shuffle(rz)
+    rz = rz[: (480 if t == "quick" else len(rz))]
+    pl += rz + [(b_, a_) for a_, b_ in rz[:120]]
     for idx, (a, b) in enumerate(pl):
         large = bool(idx & 1)
         lvl = str(f_wcag(a, b, large)) if f_wcag else ""
@@ -153,6 +159,25 @@ def collect(t, rnd):
         for a in ((0, 0, 0), (255, 255, 255)):
             bl.append((a, (g, g, g), bool(g & 4)))
     import pairs as _pairs
+    # translucent backgrounds (rgba() text / 4-tuples; the effective background is the composite over white) with channel and
+    # alpha values chosen so that the composite is an exact integer: channels multiples of 5, alpha in fifths
+    tl = []
+    for i in range(60 if t == "quick" else 900):
+        k5 = rnd.choice([1, 2, 3, 4])
+        c = tuple(5 * rnd.randrange(52) for _ in range(3)) if i % 3 else (255, 255, 255)
+        eff = tuple((ch * k5 + 255 * (5 - k5)) // 5 for ch in c)
+        assert all((ch * k5 + 255 * (5 - k5)) % 5 == 0 for ch in c)
+        spec = ("rgba(%d, %d, %d, 0.%d)" % (c + (2 * k5,))) if i % 2 else (c[0], c[1], c[2], k5 / 5)
+        txt = rnd.choice([(0, 0, 0), (255, 255, 255), gen_colours(rnd, 1)[0], gen_colours(rnd, 1)[0]])
+        tl.append((txt, spec, eff, bool(i & 4)))
+    for vr in (False, True):
+        for mode in (0, 1, 2):
+            sub = tl[mode::3] if t == "quick" else tl
+            res = make_readable_bulk([(a, sp, lg) for a, sp, _e, lg in sub], mode=mode, very_readable=vr)
+            for (a, sp, eff, lg), (col, status) in zip(sub, res):
+                css, _lib = _pairs.readbacks(col)
+                if css:
+                    obs.append({"k": "bulk", "c": css, "b": list(eff), "large": lg, "status": str(status)})
     for vr in (False, True):
         for mode in (0, 1, 2):
             sub = bl[mode::3] if t == "quick" else bl
